@@ -276,7 +276,7 @@ def attach(tr):
                     "seq": TR.nseq(),
                     "tick": TR.tick,
                     "clock": TR.clock,
-                    "pid": id(order_package),
+                    "pid": str(order_package.id),
                     "kind": KIND[order_package.package_type],
                     "orders": [TR.okey(o) for o in order_package._orders],
                     "market": order_package.market_id,
@@ -305,7 +305,7 @@ def attach(tr):
                     "seq": TR.nseq(),
                     "tick": TR.tick,
                     "clock": TR.clock,
-                    "pid": id(order_package),
+                    "pid": str(order_package.id),
                     "kind": kind,
                     "orders": [TR.okey(o) for o in order_package._orders],
                     "pre": [sname(o.status) for o in order_package._orders],
